@@ -10,7 +10,7 @@ from pathlib import Path
 from hypothesis import strategies as st
 
 from pbt import strategies as S
-from pbt.common import Stats, Sub, Violation
+from pbt.common import Stats, Sub, Violation, scratch_dir
 from pbt.sut import BUILD_MODES, call, mk_converter, mk_converter_via
 
 PROPERTY_ID = "C16"
@@ -31,7 +31,6 @@ ASSUMPTIONS = [
     "input files are produced with csv.writer (newline='') so they are well-formed for the dialect; temp files live in a per-run directory",
 ]
 
-_TMP = tempfile.TemporaryDirectory(prefix="curies-c16-")
 _n = [0]
 QUOTING = ['q"uote', "line\nbreak", "a\tb", "a,b", "a|b", "a;b", " ", '"', "'", "x\ny\nz", "cr\rhere", "crlf\r\nx"]
 PD_FUNCS = ["pd_compress", "pd_expand", "pd_standardize_prefix", "pd_standardize_curie", "pd_standardize_uri"]
@@ -209,7 +208,7 @@ def check_file(case, stats: Stats) -> None:
         fault_row = min(case["fault_pos"], len(faulty))
         faulty.insert(fault_row, [])
     _n[0] += 1
-    path = Path(_TMP.name) / f"t{_n[0]}.tsv"
+    path = scratch_dir() / f"t{_n[0]}.tsv"
     _write_table(path, case, faulty)
     before = path.read_bytes()
     name, scalar = _scalar(conv, case)
